@@ -126,26 +126,31 @@ def gen_waitall(np):
     """different numbers of pending requests per rank, incl. none, incl. a rank whose only request was rejected at posting time"""
     cases = []
     dims, vars_ = dims_vars(np)
-    for v in (0, 1):
+    for v, grow in ((0, False), (1, False), (1, True)):
+        # grow: the requests append new records, so the record count every process (also one without requests) holds afterwards is observable
         for counts in itertools.product((0, 1, 2), repeat=np):
             if len(set(counts)) == 1 and counts[0] != 0: continue
             for kind in ('ids', 'ALL'):
-                s = Script('WA-np%d-v%d-%s-%s' % (np, v, ''.join(map(str, counts)), kind), np, 1, dims, vars_)
+                s = Script('WA-np%d-v%d%s-%s-%s' % (np, v, 'g' if grow else '', ''.join(map(str, counts)), kind), np, 1, dims, vars_)
                 s.meta = dict(api='wait_all', roles=counts, v=v)
                 s.put('*', 0, form='var', coll=1, tag=50)
                 s.put('*', 1, [0, 0], [np, NX], None, form='vara', coll=1, tag=51)
                 for r in range(np):
                     slots = []
                     for k in range(counts[r]):
-                        st = [r, k]; ct = [1, 1]
+                        st = [np + r if grow else r, k]; ct = [1, 1]
                         ln, idx, vals = s.put(r, v, st, ct, None, form='vara', nb='i', req=r * 4 + k, tag=7 + r * 3 + k, update=False)
                         s.model.put_idx(v, idx, vals)
                         slots.append('q%d' % (r * 4 + k))
                     if kind == 'ALL': s.op(r, 'wait', f=0, kind='ALL', all=1)
                     else: s.op(r, 'wait', f=0, ids=slots if slots else None, all=1, num=len(slots))
+                if grow:
+                    ln = s.op('*', 'inq_unlimlen', f=0); nr = s.model.numrecs
+                    s.add_expect(ln, lambda o, rk, ln=ln, nr=nr: None if int(o.get('len', -1)) == nr else (('numrecs', 'wait_all', 'process with fewer requests'), 'line %d rank %d holds %s records after wait_all, the processes wrote up to %d' % (ln, rk, o.get('len'), nr)))
+                    s.get_all('*', 1, coll=1, what='all records right after wait_all')
                 s.op('*', 'sync'); s.op('*', 'barrier')
                 s.get_all('*', 0, coll=1); s.get_all('*', 1, coll=1)
-                s.finish(reopen=False)
+                s.finish(reopen=grow)
                 cases.append(s)
     return cases
 
